@@ -78,7 +78,9 @@ BEGIN {
     printf "rec0=[%s]\n", $0
     printf "FILENAME=[%s] RSTART=%d RLENGTH=%d ARGC=%d\n", FILENAME, RSTART, RLENGTH, ARGC
     n = 0; for (k in ARGV) n++; printf "ARGVn=%d ARGV0=[%s] ARGV1=[%s]\n", n, ARGV[0], ARGV[1]
-    n = 0; for (k in ENVIRON) n++; printf "ENVn=%d\n", n
+    n = 0; for (k in ENVIRON) n++; printf "ENVn=%d marker=[%s] K=[%s]\n", n, ENVIRON["C14_MARKER"], ENVIRON["K"]
+    printf "chars=%d\n", length("\303\251x")
+    printf "to-stderr\n" > "/dev/stderr"
     printf "IM=[%s] OM=[%s]\n", INPUTMODE, OUTPUTMODE
     printf "FS=[%s] OFS=[%s] ORS=[%s] RS=[%s] RT=[%s] SUBSEP=[%s] CONVFMT=[%s] OFMT=[%s]\n", FS, OFS, ORS, RS, RT, SUBSEP, CONVFMT, OFMT
     printf "x=[%s] r=[%s] cnt=[%s] last=[%s] y=[%s] c=[%s] l2=[%s]\n", x, r, cnt, last, y, c, l2
@@ -89,6 +91,7 @@ BEGIN {
     if ((getline l3 < aux) > 0) printf "aux-first=[%s]\n", l3
   }
   if (mode == "p_run") {
+    printf "chars=%d\n", length("\303\251x")
     printf "NR=%d FNR=%d NF=%d\n", NR, FNR, NF
     printf "rec0=[%s]\n", $0
     printf "FILENAME=[%s] RSTART=%d RLENGTH=%d ARGC=%d\n", FILENAME, RSTART, RLENGTH, ARGC
@@ -100,6 +103,12 @@ BEGIN {
   if (mode == "p_long") { for (i = 0; i < 3000; i++) sum += i; printf "sum=%d\n", sum }
   if (mode == "p_err") { printf "before\n"; x = 1/zero }
 }
+mode == "bad_FS" { FS = "a(" }
+mode == "bad_RS" { RS = "a(" }
+mode == "bad_NF" { NF = -1 }
+mode == "bad_ARGC" { ARGC = 1e9 }
+mode == "bad_INPUTMODE" { INPUTMODE = "bogus" }
+mode == "bad_OUTPUTMODE" { OUTPUTMODE = "csv separator=xx" }
 mode == "hdr" { cnt++; last = @"a" }
 mode == "count" { cnt++; if (NR == stop) exit 4 }
 mode == "err_main" { if (NR == 2) x = 1/zero }
@@ -128,6 +137,7 @@ BEGIN {
     printf "o1\n" > outf; close(outf); if ((getline ol < outf) > 0) printf "outf=[%s]\n", ol
   }
   if (mode == "p_all") {
+    printf "ENVmarker=[%s] chars=%d\n", ENVIRON["C14_MARKER"], length("\303\251x")
     printf "NR=%d FNR=%d NF=%d rec0=[%s] FILENAME=[%s] ARGC=%d\n", NR, FNR, NF, $0, FILENAME, ARGC
     printf "FS=[%s] OFS=[%s] ORS=[%s] x=[%s] An=%d rand=[%s]\n", FS, OFS, ORS, x, length(A), rand()
     print "p", "q"
@@ -138,6 +148,8 @@ BEGIN {
   if (mode == "p_long") { for (i = 0; i < 3000; i++) sum += i; printf "sum=%d\n", sum }
   if (mode == "p_err") { printf "before\n"; x = 1/zero }
 }
+mode == "bad_FS" { FS = "a(" }
+mode == "bad_RS" { RS = "a(" }
 mode == "hdr" { cnt++; last = @"a" }
 mode == "count" { cnt++; if (NR == stop) exit 4 }
 mode == "err_main" { if (NR == 2) x = 1/zero }
@@ -150,7 +162,22 @@ END {
 }
 `
 
-var progSrc = map[string]string{"A": progA, "B": progB}
+// a third program that calls a native Go function (Config.Funcs, the same map in every run as documented)
+const progF = `
+BEGIN {
+  if (mode == "exit") exit 3
+  if (mode == "setvars") { OFS = "-"; x = nf(5); NR = 5 }
+  if (mode == "err_forin") { A[1]; for (k in A) { x = 1/zero } }
+  if (mode == "p_all") { printf "nf=%s x=[%s] OFS=[%s] NR=%d\\n", nf(3), x, OFS, NR; print "p", "q" }
+  if (mode == "p_run") printf "nf=%s NR=%d ARGC=%d\\n", nf(4), NR, ARGC
+}
+mode == "count" { cnt++; if (NR == stop) exit 4 }
+mode == "p_all" || mode == "p_run" { printf "rec NR=%d nf=%s\\n", NR, nf(NR) }
+`
+
+var funcsF = map[string]any{"nf": func(x float64) float64 { return 2*x + 1 }}
+
+var progSrc = map[string]string{"A": progA, "B": progB, "F": progF}
 
 // RunSpec is one Execute/ExecuteContext call; it is also the replay format.
 type RunSpec struct {
@@ -172,9 +199,15 @@ type RunSpec struct {
 	NoArgVars  bool     `json:"no_arg_vars"`
 	Chars      bool     `json:"chars"`
 	Newline    int      `json:"newline"`
-	OpenFile   string   `json:"open_file"` // "" Config.OpenFile nil; "os" os.OpenFile given explicitly; "deny" a function that refuses every file
-	Pipe       bool     `json:"pipe"`      // the probe also reads from a command
-	Ctx        string   `json:"ctx"`       // "" Execute; "bg" ExecuteContext(Background); "live" WithCancel; "cancelled" WithCancel+cancel
+	OpenFile   string   `json:"open_file"`   // "" Config.OpenFile nil; "os" os.OpenFile given explicitly; "deny" a function that refuses every file
+	Pipe       bool     `json:"pipe"`        // the probe also reads from a command
+	NilStdin   bool     `json:"nil_stdin"`   // Config.Stdin nil: os.Stdin (the harness points it at a file holding Input)
+	NilOutput  bool     `json:"nil_output"`  // Config.Output nil: buffered os.Stdout (pointed at a file, content appended to the outcome)
+	NilError   bool     `json:"nil_error"`   // Config.Error nil: os.Stderr (likewise)
+	NilEnviron bool     `json:"nil_environ"` // Config.Environ nil: the process environment (contains C14_MARKER=m1)
+	Shell      bool     `json:"shell"`       // Config.ShellCommand = {"/bin/echo"} instead of the default
+	Funcs      bool     `json:"funcs"`       // Config.Funcs = the map program F was parsed with
+	Ctx        string   `json:"ctx"`         // "" Execute; "bg" ExecuteContext(Background); "live" WithCancel; "cancelled" WithCancel+cancel
 }
 
 type Case struct {
@@ -186,8 +219,9 @@ type Case struct {
 }
 
 var histModes = []string{"exit", "err_fn", "err_forin", "cancel_loop", "cancel_fn", "cancel_forin", "err_deep",
-	"setvars", "setre", "setmodes", "io", "getline_begin", "getline_stdin", "pipe_in", "hdr", "count", "err_main", "range", "nextfile", "endset"}
-var histModesB = []string{"exit", "err_forin", "cancel_loop", "setvars", "getline_stdin", "hdr", "count", "err_main", "endset"}
+	"setvars", "setre", "setmodes", "io", "getline_begin", "getline_stdin", "pipe_in",
+	"bad_FS", "bad_RS", "bad_NF", "bad_ARGC", "bad_INPUTMODE", "bad_OUTPUTMODE", "hdr", "count", "err_main", "range", "nextfile", "endset"}
+var histModesB = []string{"exit", "err_forin", "cancel_loop", "setvars", "getline_stdin", "bad_FS", "bad_RS", "hdr", "count", "err_main", "endset"}
 var probeModes = []string{"p_all", "p_run", "p_at_begin", "p_at_main", "p_at_end", "p_getline_nf", "p_deep", "p_streams", "p_long", "p_err"}
 var probeModesB = []string{"p_all", "p_run", "p_at_begin", "p_at_main", "p_at_end", "p_getline_nf", "p_streams", "p_long", "p_err"}
 
@@ -233,6 +267,24 @@ func (s RunSpec) config(in *strings.Reader, out *syncBuf) *interp.Config {
 	case "deny":
 		c.OpenFile = denyOpen
 	}
+	if s.NilStdin {
+		c.Stdin = nil
+	}
+	if s.NilOutput {
+		c.Output = nil
+	}
+	if s.NilError {
+		c.Error = nil
+	}
+	if s.NilEnviron {
+		c.Environ = nil
+	}
+	if s.Shell {
+		c.ShellCommand = []string{"/bin/echo"}
+	}
+	if s.Funcs {
+		c.Funcs = funcsF
+	}
 	return c
 }
 
@@ -271,8 +323,51 @@ func (o outcome) String() string {
 	return fmt.Sprintf("out=%q status=%d err=%q panic=%q", o.Out, o.Status, o.Err, o.Panic)
 }
 
+// withStd points os.Stdin / os.Stdout / os.Stderr at files for the runs that leave the corresponding Config
+// field nil, and returns what the run wrote to the two output files.
+func withStd(s RunSpec, run func()) (extra string) {
+	oldIn, oldOut, oldErr := os.Stdin, os.Stdout, os.Stderr
+	var fo, fe *os.File
+	if s.NilStdin {
+		os.WriteFile("stdin.tmp", []byte(s.Input), 0o644)
+		if f, err := os.Open("stdin.tmp"); err == nil {
+			os.Stdin = f
+			defer f.Close()
+		}
+	}
+	if s.NilOutput {
+		fo, _ = os.Create("stdout.tmp")
+		os.Stdout = fo
+	}
+	if s.NilError {
+		fe, _ = os.Create("stderr.tmp")
+		os.Stderr = fe
+	}
+	defer func() {
+		os.Stdin, os.Stdout, os.Stderr = oldIn, oldOut, oldErr
+		if fo != nil {
+			fo.Close()
+			b, _ := os.ReadFile("stdout.tmp")
+			extra += "[os.Stdout]" + string(b)
+		}
+		if fe != nil {
+			fe.Close()
+			b, _ := os.ReadFile("stderr.tmp")
+			extra += "[os.Stderr]" + string(b)
+		}
+	}()
+	run()
+	return
+}
+
 // execPublic runs one spec through the public API.
 func execPublic(ip *interp.Interpreter, s RunSpec) (res outcome) {
+	extra := withStd(s, func() { res = execPublic0(ip, s) })
+	res.Out += extra
+	return
+}
+
+func execPublic0(ip *interp.Interpreter, s RunSpec) (res outcome) {
 	var out syncBuf
 	defer func() {
 		if r := recover(); r != nil {
@@ -297,6 +392,12 @@ func execPublic(ip *interp.Interpreter, s RunSpec) (res outcome) {
 }
 
 func execProgram(prog *parser.Program, s RunSpec) (res outcome) {
+	extra := withStd(s, func() { res = execProgram0(prog, s) })
+	res.Out += extra
+	return
+}
+
+func execProgram0(prog *parser.Program, s RunSpec) (res outcome) {
 	var out syncBuf
 	defer func() {
 		if r := recover(); r != nil {
@@ -312,7 +413,11 @@ func execProgram(prog *parser.Program, s RunSpec) (res outcome) {
 }
 
 func parse(name string) *parser.Program {
-	prog, err := parser.ParseProgram([]byte(progSrc[name]), nil)
+	var pcfg *parser.ParserConfig
+	if name == "F" {
+		pcfg = &parser.ParserConfig{Funcs: funcsF}
+	}
+	prog, err := parser.ParseProgram([]byte(progSrc[name]), pcfg)
 	if err != nil {
 		panic(fmt.Sprintf("program %s: %v", name, err))
 	}
@@ -374,6 +479,12 @@ func genSpec(r *hx.Rand, mode string, probe bool) RunSpec {
 		s.OpenFile = "deny"
 	case 1:
 		s.OpenFile = "os"
+	}
+	s.NilEnviron = r.Intn(4) == 0
+	s.Shell = r.Intn(8) == 0
+	s.NilStdin, s.NilOutput, s.NilError = r.Intn(12) == 0, r.Intn(14) == 0, r.Intn(14) == 0
+	if probe && mode == "p_streams" {
+		s.Pipe = r.Intn(3) == 0
 	}
 	switch r.Intn(6) {
 	case 0:
@@ -447,10 +558,29 @@ func genCases(o hx.Opts, r *hx.Rand) []Case {
 							}
 						}
 					}
-					if p == "p_all" && !full {
+					if strings.HasPrefix(h, "bad_") {
+						hs.InputMode, hs.Header, hs.Input = 0, false, "bad\nrec2\n"
+					}
+					if p == "p_all" && full && (h == "exit" || h == "count" || h == "err_main") {
+						// Config.Environ nil (process environment) vs slice, in the earlier run and in the probe
+						for _, ne := range [][2]bool{{true, true}, {false, true}, {true, false}} {
+							hs2, ps2 := hs, ps
+							hs2.NilEnviron, ps2.NilEnviron = ne[0], ne[1]
+							if !ne[0] {
+								hs2.Environ = []string{"K", "v"}
+							}
+							if !ne[1] {
+								ps2.Environ = []string{"K", "v2"}
+							}
+							cs = append(cs, Case{Prog: pn, History: []RunSpec{hs2}, ResetVars: full, ResetRand: full, Probe: ps2})
+						}
+					}
+					if p == "p_all" && !full && !strings.HasPrefix(h, "bad_") {
 						continue
 					}
-					cs = append(cs, Case{Prog: pn, History: []RunSpec{hs}, ResetVars: full, ResetRand: full, Probe: ps})
+					if !(p == "p_all" && !full) {
+						cs = append(cs, Case{Prog: pn, History: []RunSpec{hs}, ResetVars: full, ResetRand: full, Probe: ps})
+					}
 					if p == "p_all" || p == "p_at_begin" || p == "p_at_end" {
 						ps2 := ps
 						ps2.InputMode, ps2.Input = 0, "x y\n"
@@ -460,6 +590,19 @@ func genCases(o hx.Opts, r *hx.Rand) []Case {
 						cs = append(cs, Case{Prog: pn, History: []RunSpec{hs}, ResetVars: full, ResetRand: full, Probe: ps2})
 					}
 				}
+			}
+		}
+	}
+	for _, h := range []string{"exit", "setvars", "err_forin", "count"} {
+		for _, p := range []string{"p_all", "p_run"} {
+			for _, full := range []bool{true, false} {
+				hs := RunSpec{Mode: h, Input: "a\nb\nc\n", Funcs: true}
+				ps := RunSpec{Mode: p, Input: "1\n2\n", Funcs: true}
+				cs = append(cs, Case{Prog: "F", History: []RunSpec{hs}, ResetVars: full, ResetRand: full, Probe: ps})
+				// the first call is rejected before the native functions are set up
+				bad := hs
+				bad.Vars = []string{"odd"}
+				cs = append(cs, Case{Prog: "F", History: []RunSpec{bad, hs}, ResetVars: full, ResetRand: full, Probe: ps})
 			}
 		}
 	}
@@ -573,9 +716,6 @@ func searchOne(c Case, rep *hx.Report, check bool) (hist []outcome) {
 	for _, h := range c.History {
 		hist = append(hist, execPublic(reused, h))
 	}
-	if !check {
-		return
-	}
 	if c.ResetVars {
 		reused.ResetVars()
 	}
@@ -583,6 +723,17 @@ func searchOne(c Case, rep *hx.Report, check bool) (hist []outcome) {
 		reused.ResetRand()
 	}
 	got := execPublic(reused, c.Probe)
+	if got.Panic != "" {
+		// whatever carried over, a run on a reused interpreter must not panic
+		js, _ := json.Marshal(c)
+		rep.SearchEvals++
+		rep.Fail(hx.Failure{Class: c.Probe.Mode + ":panic", Oracle: "no panic in a run on a reused interpreter",
+			Detail: map[string]any{"case": json.RawMessage(js), "program": progSrc[c.Prog], "expected_fresh": "no panic", "got_reused": got.String()}})
+		return
+	}
+	if !check {
+		return
+	}
 	fresh, _ := interp.New(prog)
 	want := execPublic(fresh, c.Probe)
 	rep.SearchEvals++
@@ -693,14 +844,28 @@ func cfgWire(c *interp.Config) string {
 		fmt.Sprintf("i%d i%d i%d %s", int(c.InputMode), c.CSVInput.Separator, c.CSVInput.Comment, b(c.CSVInput.Header)),
 		fmt.Sprintf("i%d i%d", int(c.OutputMode), c.CSVOutput.Separator),
 		optVal(c.OpenFile == nil, c.OpenFile),
-		hx.HexS(c.Argv0), hexList(c.Args), b(c.NoArgVars), pairs(c.Vars), b(c.Chars), pairs(c.Environ),
-		"N", // ShellCommand empty
+		hx.HexS(c.Argv0), hexList(c.Args), b(c.NoArgVars), pairs(c.Vars), b(c.Chars), pairs(effectiveEnviron(c)),
+		optVal(len(c.ShellCommand) == 0, c.ShellCommand),
 		b(c.NoExec), b(c.NoFileWrites), b(c.NoFileReads),
 		interp.VerifC14Val(c.Stdin, false), interp.VerifC14Val(c.Output, false), interp.VerifC14Val(c.Error, false),
 		"l0",
 		fmt.Sprintf("i%d", int(c.NewlineOutput)),
 	}
 	return strings.Join(parts, " ")
+}
+
+// effectiveEnviron: Config.Environ, or for nil the pairs setExecuteConfig takes from os.Environ()
+func effectiveEnviron(c *interp.Config) []string {
+	if c.Environ != nil {
+		return c.Environ
+	}
+	var kv []string
+	for _, e := range os.Environ() {
+		if k, v, ok := strings.Cut(e, "="); ok {
+			kv = append(kv, k, v)
+		}
+	}
+	return kv
 }
 
 func optVal(isNil bool, x any) string {
@@ -877,6 +1042,15 @@ func (k *corr) corrOne(c Case, rep *hx.Report, pub []outcome) {
 var nRandomCorr = 0
 
 func corrSelected(c Case, i int, tier string) bool {
+	// not modelled: program F (the rendering of its nativeFuncs) and the os.Stdin/Stdout/Stderr defaults
+	if c.Prog == "F" {
+		return false
+	}
+	for _, s := range append(append([]RunSpec{}, c.History...), c.Probe) {
+		if s.NilStdin || s.NilOutput || s.NilError {
+			return false
+		}
+	}
 	if tier == "thorough" {
 		return true
 	}
@@ -937,7 +1111,7 @@ func setupFiles() string {
 func main() {
 	o := hx.ParseFlags()
 	rep := hx.NewReport("C14", o.Seed, o.Tier)
-	rep.Rule = "systematic: every history mode (exit, error in function / for-in / deep recursion / main rule, cancelled context in loop / function / for-in, assignments to all special variables, regex FS/RS, INPUTMODE/OUTPUTMODE, open file streams, getline, getline < \"-\" with stdin data left over, cmd | getline left open, ExecuteContext with a live context cancelled after the run followed by a long / failing context-free probe, CSV header run, range pattern, nextfile, $0 assigned in END) x every probe (incl. p_streams: getline < \"-\" / file / rewritten output file / command again) x {full reset, no reset} on two programs, Config.OpenFile nil / os.OpenFile / deny-all differing between earlier run and probe, plus random histories of 1-4 runs with random Config (modes, header, separators, Args incl. files / var=value / missing file, Vars, Environ, sandbox flags, Chars, newline mode, Execute vs ExecuteContext, rejected configurations) and random ResetVars/ResetRand; distinct = distinct (program, history modes+input modes+ctx+args, resets, probe mode+input mode+ctx); non-trivial = at least one run before the probe"
+	rep.Rule = "systematic: every history mode (exit, error in function / for-in / deep recursion / main rule, cancelled context in loop / function / for-in, assignments to all special variables, regex FS/RS, INPUTMODE/OUTPUTMODE, open file streams, getline, getline < \"-\" with stdin data left over, cmd | getline left open, a run-time error raised while assigning FS / RS / NF / ARGC / INPUTMODE / OUTPUTMODE, ExecuteContext with a live context cancelled after the run followed by a long / failing context-free probe, CSV header run, range pattern, nextfile, $0 assigned in END) x every probe (incl. p_streams: getline < \"-\" / file / rewritten output file / command again) x {full reset, no reset} on two programs, Config.OpenFile nil / os.OpenFile / deny-all differing between earlier run and probe, plus random histories of 1-4 runs with random Config (modes, header, separators, Args incl. files / var=value / missing file, Vars, Environ, sandbox flags, Chars, newline mode, Execute vs ExecuteContext, rejected configurations) and random ResetVars/ResetRand; every field of interp.Config takes at least two values incl. the nil/zero one within histories (Environ nil = process environment with a marker variable vs slice, Stdin/Output/Error nil = os.Stdin/Stdout/Stderr pointed at files, ShellCommand default vs /bin/echo, OpenFile nil/os/deny, Funcs on a third program, Args/Argv0/NoArgVars/Vars/Chars/modes/flags/newline); a run on a reused interpreter must never panic (checked also when outcomes are not comparable); distinct = distinct (program, history modes+input modes+ctx+args, resets, probe mode+input mode+ctx); non-trivial = at least one run before the probe"
 	out := o.Out
 	if out != "" && !strings.HasPrefix(out, "/") {
 		wd, _ := os.Getwd()
@@ -970,6 +1144,7 @@ func main() {
 	}
 	dir := setupFiles()
 	defer os.RemoveAll(dir)
+	os.Setenv("C14_MARKER", "m1") // observed by the probes when Config.Environ is nil
 
 	if replayCase != nil {
 		searchOne(*replayCase, rep, true)
